@@ -14,6 +14,9 @@
 void harness(void) {
 	KSI_PublicationsFile pf; struct KSI_Integer_st q; KSI_PublicationRecord *out = NULL; const KSI_Integer *qp = &q; int res;
 	g18l_setup();
+#ifdef LOOKUP_UNWIND
+	__CPROVER_assume(g18l_len <= LOOKUP_UNWIND);      /* the stated bound */
+#endif
 	memset(&pf, 0, sizeof(pf)); pf.publications = &g18l_list;
 	q.ref = 1; q.value = g18l_t;
 #if defined(H_nearest)
@@ -27,9 +30,19 @@ void harness(void) {
 	g18l_mode = 2;
 	res = KSI_PublicationsFile_getPublicationDataByTime(&pf, qp, &out);
 #endif
+#ifdef LOOKUP_UNWIND
+	/* bounded variant (list <= LOOKUP_UNWIND elements, plain unwinding): the contract's postcondition asserted here */
+#if defined(H_nearest)
+	__CPROVER_assert(NEAREST_POST(res, out), "nearest: OK; NULL <=> no publication at or after t; else a record with the earliest time >= t, one more reference");
+#elif defined(H_latest)
+	__CPROVER_assert(LATEST_POST(res, out), "latest: OK; NULL <=> no candidate; else a record with the latest time (>= t when given), borrowed");
+#endif
+#endif
 	if (res == KSI_OK && g18l_ref.has) REACH("found");
 	if (res == KSI_OK && !g18l_ref.has && g18l_len > 2) REACH("none in a non-empty list");
 	if (res == KSI_OK && g18l_len == 0) REACH("empty list");
+#ifndef H_bytime
 	if (res == KSI_OK && g18l_ref.has && g18l_best != g18l_alt) REACH("tie");
+#endif
 }
 #endif
